@@ -95,12 +95,20 @@ type Options struct {
 	Mutation bool // snapshot inputs before/after, error => nil result, history clause (C12)
 	Depth    int
 	SigTypes []string
+	// GenesisTime of the applier's protocol (the anchored operations keep protocol version 0)
+	GenesisTime uint64
+	// TwoAlgorithms: the protocol lists sha2-256 and sha2-512 and the alphabet is syms.AlphabetTwoAlgorithms
+	TwoAlgorithms bool
 }
 
 func Explore(r *core.Run, o Options) {
 	p := syms.Proto()
-	app := operationapplier.New(p, operationparser.New(p), doccomposer.New())
 	alphabet := syms.Alphabet(o.SigTypes, "EiAlphabetSuffix")
+	if o.TwoAlgorithms {
+		p, alphabet = syms.ProtoTwoAlgorithms(), syms.AlphabetTwoAlgorithms("EiAlphabetSuffix")
+	}
+	p.GenesisTime = o.GenesisTime
+	app := operationapplier.New(p, operationparser.New(p), doccomposer.New())
 	r.Extra["alphabet_symbols"] = len(alphabet)
 	r.Extra["depth_bound"] = o.Depth
 	names := map[string]int{}
@@ -373,11 +381,23 @@ func merge(a, b map[string]any) map[string]any {
 
 func Run(r *core.Run) {
 	r.Rule = "BFS over the real OperationApplier.Apply: every symbol of the alphabet (operation type x failure class x key type x window class, own anchoring tuple and commitments each) " +
-		"from every reachable state (2 initial states), deduplicated on the canonical form of all 15 fields, not expanded past an accepted deactivate; every transition compared with the reference state machine; " +
+		"from every reachable state (2 initial states), and a second alphabet under a protocol with both hash algorithms (operations under sha2-256, sha2-512 and mixtures, key re-use across algorithms), deduplicated on the canonical form of all 15 fields, not expanded past an accepted deactivate; every transition compared with the reference state machine; " +
 		"distinct = distinct canonical states; non-trivial = all (every state differs in at least one field)"
 	r.Assumptions = []string{"reference state machine ref/sidetree and reference patch semantics ref/patch written from the property statement",
 		"operations built and signed by the harness generator; the applier is driven directly (reveal/commitment matching is the processor's job)",
 		"documents compared through the observable projection (null / absent / [] list members are one observation)"}
 	types := core.Pick(r, []string{"Ed25519", "P-256", "secp256k1"}, []string{"Ed25519", "P-256", "secp256k1", "P-384"})
 	Explore(r, Options{Model: true, Depth: core.Pick(r, 3, 4), SigTypes: types})
+	// the same search with a protocol that lists both hash algorithms, over operations that use one of them or mix them
+	first := map[string]any{}
+	for k, v := range r.Extra {
+		first[k] = v
+	}
+	Explore(r, Options{Model: true, Depth: core.Pick(r, 3, 4), TwoAlgorithms: true})
+	for k, v := range r.Extra {
+		if old, ok := first[k]; ok {
+			r.Extra["two_algorithms_"+k] = v
+			r.Extra[k] = old
+		}
+	}
 }
